@@ -158,6 +158,8 @@ type Engine struct {
 	knownTags    map[string]bool // assertion messages that are known findings: do not stop, do not count
 	knownHit     map[string]*Violation
 	timeNow      *Term
+	workLimit    int64 // vWorkBegin: step count at which the section has used more work than allowed
+	workMsg      string
 	goQueue      []FuncV // goroutines queued by vQueueGo: run when the harness goroutine blocks
 	inGoroutine  int
 	guards       map[*Cell]guardInfo // lockset discipline declared by vGuardedBy
@@ -242,6 +244,7 @@ func (e *Engine) resetPath(prefix []decision) {
 	e.clockSkew = 0
 	e.guards = nil
 	e.goQueue, e.inGoroutine = nil, 0
+	e.workLimit, e.workMsg = 0, ""
 	if e.harnessFn == nil {
 		e.harnessFn = map[*ssa.Function]bool{}
 	}
@@ -1089,6 +1092,20 @@ func (e *Engine) execBlock(fr *Frame, b *ssa.BasicBlock) *ssa.BasicBlock {
 func (e *Engine) execFrom(fr *Frame, b *ssa.BasicBlock, start int) *ssa.BasicBlock {
 	for _, ins := range b.Instrs[start:] {
 		e.steps++
+		if e.workLimit > 0 && e.steps > e.workLimit {
+			e.workLimit = 0
+			if e.noFork > 0 {
+				panic(mergeAbort{"work bound inside merge"})
+			}
+			_, m := e.query(e.ts.True, e.modelTermsOr())
+			e.reportViolation("work", e.workMsg, m)
+		}
+		if e.noBlockMsg != "" && e.inGoroutine == 0 && e.steps-e.sectionStart > 300000 {
+			// a must-not-block section is given a step budget of its own: the calls made in
+			// one are short, and a loop that never ends should not cost the whole path budget
+			e.sectionStart = e.steps
+			e.unwindFail("more than 300000 instructions inside a must-not-block section")
+		}
 		if e.steps > e.maxSteps {
 			e.unwindFail(fmt.Sprintf("step budget %d exceeded", e.maxSteps))
 		}
